@@ -2,7 +2,6 @@
     Statements only; proofs are in Shape.v / Inv.v / Hist.v. *)
 From Coq Require Import List NArith ZArith Bool.
 From Mast Require Import Reload WorldInv Prim Key Tree KeyOrder Codec Store Diff World Erase Build Spec Canon Level Inv Shape Hist.
-From Mast Require Import ReloadB.
 Import ListNotations.
 
 Section GENERIC.
